@@ -1,7 +1,128 @@
 package secp256k1
 
-import "testing"
+// Ownership battery: every API function that takes or returns byte slices / pointers is called with
+// caller-owned buffers in three layouts; the whole backing arrays and all non-receiver operands are
+// compared before and after, and returned buffers are overwritten to check independence.
 
-func vRunCase6(t *testing.T, c vCase) string {
-	return "unknown case kind " + c.Kind
+import (
+	"bytes"
+	"math/big"
+	"testing"
+)
+
+func vLayout(content []byte, layout int) (slice, backing []byte) {
+	n := len(content)
+	switch layout {
+	case 1:
+		b := bytes.Repeat([]byte{0x58}, n+8)
+		copy(b, content)
+		return b[:n], b
+	case 2:
+		b := bytes.Repeat([]byte{0x58}, n+11)
+		copy(b[3:], content)
+		return b[3 : 3+n : 3+n+2], b
+	}
+	b := append([]byte{}, content...)
+	return b, b
+}
+
+func vRunCase6(t *testing.T, c vCase) (msg string) {
+	switch c.Kind {
+	case "mem":
+		g := vMulPt(big.NewInt(7), vG())
+		enc := vSec1(g, true)
+		unc := vSec1(g, false)
+		sc := vPad32(big.NewInt(123456789))
+		for layout := 0; layout < 3; layout++ {
+			type call struct {
+				name string
+				in   []byte
+				f    func(in []byte)
+			}
+			calls := []call{
+				{"Scalar.Decode", sc, func(in []byte) { _ = NewScalar().Decode(in) }},
+				{"Scalar.UnmarshalBinary", sc, func(in []byte) { _ = NewScalar().UnmarshalBinary(in) }},
+				{"Scalar.Decode(short)", sc[:5], func(in []byte) { _ = NewScalar().Decode(in) }},
+				{"Element.Decode", enc, func(in []byte) { _ = NewElement().Decode(in) }},
+				{"Element.Decode(uncompressed)", unc, func(in []byte) { _ = NewElement().Decode(in) }},
+				{"Element.DecodeCompressed", enc, func(in []byte) { _ = NewElement().DecodeCompressed(in) }},
+				{"Element.DecodeUncompressed", unc, func(in []byte) { _ = NewElement().DecodeUncompressed(in) }},
+				{"Element.UnmarshalBinary", enc, func(in []byte) { _ = NewElement().UnmarshalBinary(in) }},
+			}
+			for _, dl := range []int{1, 16, 255, 256, 300} {
+				dst := bytes.Repeat([]byte{0x44}, dl)
+				for _, ml := range []int{0, 1, 64} {
+					m := bytes.Repeat([]byte{0x4d}, ml)
+					ms, mb := vLayout(m, layout)
+					mcopy := append([]byte{}, mb...)
+					calls = append(calls,
+						call{"HashToGroup(dst)", dst, func(in []byte) { HashToGroup(ms, in) }},
+						call{"EncodeToGroup(dst)", dst, func(in []byte) { EncodeToGroup(ms, in) }},
+						call{"HashToScalar(dst)", dst, func(in []byte) { HashToScalar(ms, in) }})
+					_ = mcopy
+				}
+				d2, _ := vLayout(dst, 0)
+				calls = append(calls, call{"HashToGroup(msg)", bytes.Repeat([]byte{0x4d}, 17), func(in []byte) { HashToGroup(in, d2) }},
+					call{"HashToScalar(msg)", bytes.Repeat([]byte{0x4d}, 17), func(in []byte) { HashToScalar(in, d2) }})
+			}
+			for _, cl := range calls {
+				s, backing := vLayout(cl.in, layout)
+				before := append([]byte{}, backing...)
+				cl.f(s)
+				if !bytes.Equal(before, backing) {
+					for i := range before {
+						if before[i] != backing[i] {
+							return cl.name + " wrote to the caller's buffer (layout " + itoa(layout) + ", |arg|=" + itoa(len(cl.in)) + ") at backing index " + itoa(i) + " (slice index " + itoa(i-map[int]int{0: 0, 1: 0, 2: 3}[layout]) + ")"
+						}
+					}
+				}
+			}
+		}
+		// pointer operands
+		s, u, v := vScalarOf(t, big.NewInt(5)), vScalarOf(t, big.NewInt(9)), vScalarOf(t, big.NewInt(11))
+		ub, vb := u.Encode(), v.Encode()
+		s.Add(u).Subtract(v).Multiply(u).Pow(v)
+		s.Equal(u)
+		s.LessOrEqual(v)
+		_ = s.CSelect(1, u, v)
+		s.Set(u)
+		if !bytes.Equal(ub, u.Encode()) || !bytes.Equal(vb, v.Encode()) {
+			return "a scalar operand was modified"
+		}
+		e, f := vElementOf(g, big.NewInt(3)), vElementOf(vAddPt(g, g), big.NewInt(5))
+		fb := f.Encode()
+		e.Add(f).Subtract(f)
+		e.Equal(f)
+		e.Multiply(u)
+		e.Set(f)
+		if !bytes.Equal(fb, f.Encode()) || !bytes.Equal(ub, u.Encode()) {
+			return "an element/scalar operand was modified"
+		}
+		// returned buffers are independent
+		e = vElementOf(g, big.NewInt(3))
+		for name, get := range map[string]func() []byte{"Element.Encode": e.Encode, "Element.EncodeUncompressed": e.EncodeUncompressed, "Element.XCoordinate": e.XCoordinate,
+			"Scalar.Encode": u.Encode, "Order": Order} {
+			a := get()
+			ref := append([]byte{}, a...)
+			for i := range a[:cap(a)] {
+				a[:cap(a)][i] ^= 0xff
+			}
+			if b := get(); !bytes.Equal(b, ref) {
+				return name + ": writing to a returned buffer changed a later result"
+			}
+		}
+		cp := e.Copy()
+		cp.Double()
+		if got, _ := vPointOf(e); !vSame(got, g) {
+			return "Element.Copy shares storage with its source"
+		}
+		sc2 := u.Copy()
+		sc2.Add(v)
+		if !bytes.Equal(ub, u.Encode()) {
+			return "Scalar.Copy shares storage with its source"
+		}
+	default:
+		return vRunCase7(t, c)
+	}
+	return ""
 }
